@@ -22,10 +22,10 @@ Definition rtree_hi (t : rtree) : nat := match t with RT r _ => rr_hi r end.
     strictly inside the element (after its first byte, before its last byte). *)
 Fixpoint wf_rtree (lo hi : nat) (t : rtree) {struct t} : Prop :=
   match t with
-  | RT (h, pair) ch =>
-    let span_hi := match pair with Some tl => snd tl | None => snd h end in
+  | RT (h, cl) ch =>
+    let span_hi := match cl with Some tl => snd tl | None => snd h end in
     lo <= fst h /\ fst h < snd h /\ span_hi <= hi /\
-    match pair with Some tl => snd h <= fst tl /\ fst tl < snd tl | None => True end /\
+    match cl with Some tl => snd h <= fst tl /\ fst tl < snd tl | None => True end /\
     (fix wf_children (lo' : nat) (l : list rtree) {struct l} : Prop :=
        match l with
        | [] => True
